@@ -11,6 +11,7 @@ package main
 
 import (
 	"bytes"
+	"context"
 	"encoding/binary"
 	"errors"
 	"fmt"
@@ -27,6 +28,9 @@ import (
 
 const ioDeadline = 20 * time.Second
 
+// a reader that stops later than this after the last byte was written was blocked (generous: loopback)
+const hangAfter = 8 * time.Second
+
 type stream struct {
 	rcvBuf uint32
 	segs   [][]byte
@@ -35,6 +39,8 @@ type stream struct {
 	seg    string   // name of the segmentation
 	hold   bool     // the writer keeps its end open until the reader stopped
 	paced  bool     // the writer sleeps between segments so that the reader sees short reads
+	// != 0: the reader is a real client that sent this ReceiveBufSize in its Hello and got rcvBuf back in the Acknowledge
+	helloRcv uint32
 }
 
 func (s *stream) request() string {
@@ -78,29 +84,103 @@ func classify(err error) string {
 	return "other:" + strings.ReplaceAll(err.Error(), " ", "_")
 }
 
+// pair sets up the two ends of one case.  Without a handshake the reader is
+// uacp.NewConn over the accepted socket; with st.helloRcv != 0 the reader is a
+// real client: uacp.Dialer.Dial (NewConn + Conn.Handshake) against this
+// harness, which answers the Hello with an Acknowledge carrying st.rcvBuf — the
+// frames then arrive over an ESTABLISHED connection whose receive buffer was
+// negotiated, not configured.
+func pair(ln *net.TCPListener, st *stream) (conn *uacp.Conn, wc *net.TCPConn, err error) {
+	if st.helloRcv == 0 {
+		d := net.Dialer{Timeout: 10 * time.Second}
+		c, err := d.Dial("tcp", ln.Addr().String())
+		if err != nil {
+			return nil, nil, fmt.Errorf("dial: %v", err)
+		}
+		wc = c.(*net.TCPConn)
+		ln.SetDeadline(time.Now().Add(10 * time.Second))
+		rc, err := ln.AcceptTCP()
+		if err != nil {
+			wc.Close()
+			return nil, nil, fmt.Errorf("accept: %v", err)
+		}
+		conn, err = uacp.NewConn(rc, &uacp.Acknowledge{ReceiveBufSize: st.rcvBuf, SendBufSize: st.rcvBuf})
+		if err != nil {
+			wc.Close()
+			rc.Close()
+			return nil, nil, fmt.Errorf("NewConn: %v", err)
+		}
+		return conn, wc, nil
+	}
+	type acc struct {
+		c   *net.TCPConn
+		err error
+	}
+	ch := make(chan acc, 1)
+	go func() {
+		ln.SetDeadline(time.Now().Add(10 * time.Second))
+		c, err := ln.AcceptTCP()
+		if err != nil {
+			ch <- acc{nil, err}
+			return
+		}
+		c.SetDeadline(time.Now().Add(ioDeadline))
+		hdr := make([]byte, 8)
+		if _, err = io.ReadFull(c, hdr); err == nil && string(hdr[:4]) == "HELF" {
+			_, err = io.ReadFull(c, make([]byte, binary.LittleEndian.Uint32(hdr[4:])-8))
+		} else if err == nil {
+			err = fmt.Errorf("no Hello: %q", hdr[:4])
+		}
+		if err == nil {
+			ack := header("ACK", 'F', 28)
+			for _, v := range []uint32{0, st.rcvBuf, 65535, 0, 0} {
+				ack = binary.LittleEndian.AppendUint32(ack, v)
+			}
+			_, err = c.Write(ack)
+		}
+		c.SetDeadline(time.Time{})
+		ch <- acc{c, err}
+	}()
+	ctx, cancel := context.WithTimeout(context.Background(), ioDeadline)
+	defer cancel()
+	dl := &uacp.Dialer{Dialer: &net.Dialer{Timeout: 10 * time.Second},
+		ClientACK: &uacp.Acknowledge{ReceiveBufSize: st.helloRcv, SendBufSize: 65535}}
+	conn, err = dl.Dial(ctx, "opc.tcp://"+ln.Addr().String())
+	a := <-ch
+	if err != nil || a.err != nil {
+		if a.c != nil {
+			a.c.Close()
+		}
+		if conn != nil {
+			conn.Close()
+		}
+		return nil, nil, fmt.Errorf("handshake: dial=%v peer=%v", err, a.err)
+	}
+	if conn.ReceiveBufSize() != st.rcvBuf {
+		// not this property's business (C06), but the case would not be the one the model is asked about
+		conn.Close()
+		a.c.Close()
+		return nil, nil, fmt.Errorf("handshake: client receive buffer %d, Acknowledge said %d", conn.ReceiveBufSize(), st.rcvBuf)
+	}
+	return conn, a.c, nil
+}
+
 // runOne plays the stream over a fresh loopback connection and returns the
 // frames Receive delivered and the class of the error that ended the loop.
 func runOne(ln *net.TCPListener, st *stream) (frames [][]byte, stop string, writerDone bool, infra error) {
-	d := net.Dialer{Timeout: 10 * time.Second}
-	c, err := d.Dial("tcp", ln.Addr().String())
+	conn, wc, err := pair(ln, st)
 	if err != nil {
-		return nil, "", false, fmt.Errorf("dial: %v", err)
+		return nil, "", false, err
 	}
-	wc := c.(*net.TCPConn)
 	defer wc.Close()
+	defer conn.Close()
 	wc.SetNoDelay(true)
-	ln.SetDeadline(time.Now().Add(10 * time.Second))
-	rc, err := ln.AcceptTCP()
-	if err != nil {
-		return nil, "", false, fmt.Errorf("accept: %v", err)
-	}
-	defer rc.Close()
-	conn, err := uacp.NewConn(rc, &uacp.Acknowledge{ReceiveBufSize: st.rcvBuf, SendBufSize: st.rcvBuf})
-	if err != nil {
-		return nil, "", false, fmt.Errorf("NewConn: %v", err)
-	}
 
-	done := make(chan bool, 1)
+	type wres struct {
+		ok bool
+		at time.Time
+	}
+	done := make(chan wres, 1)
 	go func() {
 		ok := true
 		for _, g := range st.segs {
@@ -119,11 +199,11 @@ func runOne(ln *net.TCPListener, st *stream) (frames [][]byte, stop string, writ
 		if !st.hold {
 			wc.CloseWrite()
 		}
-		done <- ok
+		done <- wres{ok, time.Now()}
 	}()
 
 	for {
-		rc.SetReadDeadline(time.Now().Add(ioDeadline))
+		conn.SetReadDeadline(time.Now().Add(ioDeadline))
 		var b []byte
 		var rerr error
 		res := h.Catch(func() string {
@@ -140,10 +220,17 @@ func runOne(ln *net.TCPListener, st *stream) (frames [][]byte, stop string, writ
 		}
 		frames = append(frames, append([]byte(nil), b...))
 	}
-	rc.Close()
+	stopped := time.Now()
+	conn.Close()
 	wc.Close()
 	select {
-	case writerDone = <-done:
+	case w := <-done:
+		writerDone = w.ok
+		// everything had been written (and the writer waits) but Receive needed most of the
+		// read deadline to give up: it was blocked waiting for bytes that were never to come
+		if st.hold && w.ok && stopped.Sub(w.at) > hangAfter && stop != "timeout" {
+			stop = "timeout"
+		}
 	case <-time.After(2 * ioDeadline):
 		return frames, stop, false, fmt.Errorf("writer goroutine stuck")
 	}
@@ -395,9 +482,10 @@ func gen(rnd *h.Rand, big bool) *stream {
 // ------------------------------------------------------------ evaluation
 
 type env struct {
-	r  *h.Result
-	d  *h.Driver
-	ln *net.TCPListener
+	r     *h.Result
+	d     *h.Driver
+	ln    *net.TCPListener
+	abort bool
 }
 
 func (e *env) eval(st *stream) {
@@ -429,6 +517,9 @@ func (e *env) eval(st *stream) {
 	if st.hold {
 		e.r.Hit("writer-holds-open")
 	}
+	if st.helloRcv != 0 {
+		e.r.Hit("after-real-handshake")
+	}
 	if st.paced {
 		e.r.Hit("paced")
 	}
@@ -453,7 +544,8 @@ func (e *env) eval(st *stream) {
 		e.r.Fail(short, "", "Receive panicked")
 	}
 	if stop == "timeout" {
-		e.r.Fail(short, "", "Receive still blocked 20 s after all bytes were written (twice)")
+		e.r.Fail(short, "", "Receive blocked for more than 8 s after all bytes had been written, until the read deadline (twice)")
+		e.abort = true // every further case of this kind would cost two read deadlines
 	}
 	if st.kind == "replay" {
 		// no construction knowledge: the frames that must be delivered are read off the byte stream
@@ -544,7 +636,7 @@ func main() {
 		return
 	}
 	defer l.Close()
-	e := &env{r, d, l.(*net.TCPListener)}
+	e := &env{r: r, d: d, ln: l.(*net.TCPListener)}
 	rnd := h.NewRand(o.Seed)
 	r.Rule = "case = (receive buffer, list of TCP segments): frames delivered by the real uacp.Conn.Receive loop over loopback TCP and the class of the terminating error vs Lean receiveAll on the same segments; streams = 0..6 well-formed frames (sizes 8, 9, rcvBuf-1, rcvBuf, random; any type but ERR) followed by nothing / a header with size 0..7 / size > rcvBuf (up to 2^32-1) / a valid or garbage ERR frame / a truncated frame, optionally more frames behind; 7 segmentations (whole, bytewise, per frame, cut inside every header, random, random with empty reads), writer paced or holding the connection open; rcvBuf 0..7 only model vs impl (panic); every case is non-trivial, distinct by request line"
 
@@ -571,8 +663,14 @@ func main() {
 	}
 	n := o.N(400, 6000)
 	nbig := o.N(3, 40)
-	for i := 0; i < n+nbig && r.InfraError == ""; i++ {
-		e.eval(gen(rnd, i >= n))
+	for i := 0; i < n+nbig && r.InfraError == "" && !e.abort; i++ {
+		st := gen(rnd, i >= n)
+		// one case in four runs over a connection established by the real client handshake:
+		// the client configured another receive buffer than the one it then negotiates
+		if st.rcvBuf >= 64 && rnd.Chance(25) {
+			st.helloRcv = uint32(rnd.Pick(64, 8192, 65535, 1<<20))
+		}
+		e.eval(st)
 	}
 	// rcvBuf below the header size: the slice expression b[:8] panics (C05_small_buffer); reported under C13
 	for rb := 0; rb < 8 && r.InfraError == ""; rb++ {
@@ -581,7 +679,7 @@ func main() {
 	}
 	for _, b := range []string{"kind:clean", "kind:toosmall", "kind:toolarge", "kind:errframe", "kind:errgarbage", "kind:truncated", "kind:smallbuf",
 		"stop:eof", "stop:ueof", "stop:toolarge", "stop:toosmall", "stop:errf", "stop:errdecode", "stop:panic",
-		"seg:whole", "seg:bytewise", "seg:perframe", "seg:headersplit", "seg:random", "seg:randomempty"} {
+		"after-real-handshake", "seg:whole", "seg:bytewise", "seg:perframe", "seg:headersplit", "seg:random", "seg:randomempty"} {
 		if r.Distribution[b] == 0 {
 			r.Unreached = append(r.Unreached, b)
 		}
